@@ -195,7 +195,7 @@ class Harness:
 
     def _default_rng(self, seed=None):
         n = len(self.rngs)
-        rng = HObj(f"rng{n}", attrs={"seed": seed, "bit_generator": HObj(f"bitgen{n}", attrs={"state": {"state": 0, "has_uint32": 0}})})
+        rng = HObj(f"rng{n}", attrs={"seed": seed, "bit_generator": HObj(f"bitgen{n}", attrs={"state": {"state": 1000 * n, "has_uint32": 1000 * n}})})
         self.rngs.append(rng)
         return rng
 
@@ -641,10 +641,13 @@ def judge_complete(params, out):
             v.append(("C14", "generator-derivation", f"chain {c}'s generator is derived from `{_name(seed)}`, not from the base generator advanced by the chain index ({where})"))
     for c in range(n_chain):
         snaps = [e[5] for e in out["events"] if e[0] == "sample" and e[2] == c and len(e) > 5 and e[5] is not None]
+        base = 1000 * c  # every generator starts from its own state
         for kk, sn in enumerate(snaps):
-            if sn != (kk, kk):
-                what = "replays draws it has produced before" if (sn[0] is not None and sn[0] < kk) else "is not continued exactly"
-                v.append(("C14", "stream-replayed" if sn[0] is not None and sn[0] < kk else "stream-state", f"the random stream of chain {c} {what}: draw {kk} of the run starts from generator state {sn} instead of {(kk, kk)} (the state the previous draw left, including the buffered half-word) ({where})"))
+            if sn != (base + kk, base + kk):
+                replay = sn[0] is not None and base <= sn[0] < base + kk
+                foreign = sn[0] is not None and not (base <= sn[0] < base + 1000)
+                what = "replays draws it has produced before" if replay else ("continues from the state of another chain's generator" if foreign else "is not continued exactly")
+                v.append(("C14", "stream-replayed" if replay else ("stream-foreign" if foreign else "stream-state"), f"the random stream of chain {c} {what}: draw {kk} of the run starts from generator state {sn} instead of {(base + kk, base + kk)} (the state the previous draw left, including the buffered half-word) ({where})"))
                 break
     firsts = [rs[0] for rs in per_chain.values()]
     if len({id(r) for r in firsts}) != len(firsts):
@@ -724,6 +727,13 @@ def judge_adaptation(params, out):
                 counts = {a[0]: a[1] for a in e[2]}
                 if any(counts.get(c) != n_updates.get(c) for c in counts):
                     v.append(("C16", "finalize-states", f"adapter `{name}` is finalised with adaptation states that saw {counts} updates; the stage performed {n_updates} ({where})"))
+                last = {}
+                for e2 in events[: events.index(e)]:
+                    if e2[0] == "sample":
+                        last[e2[2]] = f"{e2[3]}>{e2[1]}"
+                want_states = [last.get(c, f"c{c}") for c in chains]
+                if list(e[3]) != want_states:
+                    v.append(("C16", "finalize-chain-states", f"adapter `{name}` is finalised with the chain states {list(e[3])}; the states at the end of the stage are {want_states} (momenta are re-drawn for, and metrics estimated at, the wrong states) ({where})"))
                 if sum(n_updates.values()) == 0:
                     v.append(("C16", "finalize-empty-stage", f"adapter `{name}` is finalised after a stage in which it was never updated: initial defaults overwrite the adapted parameters ({where})"))
                 if len(e[4]) != n_chain or any(r is not out["rngs"][c] for c, r in enumerate(e[4])):
